@@ -4,7 +4,7 @@
    app on the exclude list is not a seed, fixes/C14-2); [plain_arrows] is the arrow loop of DrawIntsView. *)
 From Coq Require Import List NArith Bool String.
 Import ListNotations.
-Require Import Verif.Ints.IntsModel Verif.Ints.IntsFold Verif.Ints.IntsProps Verif.Ints.IntsTerm Verif.Ints.IntsView.
+Require Import Verif.Ints.IntsModel Verif.Ints.IntsFold Verif.Ints.IntsProps Verif.Ints.IntsTerm Verif.Ints.IntsView Verif.Ints.Views.
 Require Import Verif.Ints.ShapeTypes Verif.Ints.Shape Verif.Gen.IntsShape.
 Local Open Scope N_scope.
 
@@ -111,3 +111,15 @@ Theorem C14_source_shape :
   List.length passes = 3%nat /\ List.length process_calls = 10%nat.
 Proof. exact source_shape. Qed.
 Print Assumptions C14_source_shape.
+
+(* ---- several views of one project are independent: each is the single-view result with its own parameters
+        (command-level excludes U that view's own excludes, its own pass-through set, a fresh builder) ---- *)
+Theorem C14_views_independent : forall m cli vs fuel,
+  gen_views m cli vs fuel = map (fun nv => (fst nv, view_alone m cli (snd nv) fuel)) vs.
+Proof. exact gen_views_independent. Qed.
+Print Assumptions C14_views_independent.
+
+(* ... and GenerateIntegrations still has that shape in the current source *)
+Theorem C14_views_loop_shape : views_loop = [VOwnExcludes; VOwnPassthrough; VBuildFreshUnion; VParamsFromThisBuilder; VRender].
+Proof. exact shape_views_loop. Qed.
+Print Assumptions C14_views_loop_shape.
